@@ -189,6 +189,7 @@ class World(object):
         self.async_pending = []  # (action_ex_id, Result) to be posted
         self.poll_active = {}   # scheduler instance name -> activity
         self.extra = {}         # scenario private data
+        self.rp = False         # read-prefix preemption (see _rp_point)
 
     def next_seq(self):
         self.seq += 1
@@ -326,6 +327,80 @@ def _get_session():
 
 
 db_base._get_session = _get_session
+
+
+# ---------------------------------------------------------------- overlap
+# Read-prefix preemption (opt-in per scenario, W.rp): a transaction that has
+# only *read* so far may be overtaken by complete transactions of other
+# activities before it issues its first write (or takes its first lock).
+# This is exactly what READ COMMITTED allows for transactions that overlap
+# in a real MySQL / PostgreSQL: the reads took no locks, the later writes
+# see whatever was committed in between, and the ORM objects loaded by the
+# prefix are stale.  On the single shared SQLite connection the read-only
+# prefix is committed before the switch and a new transaction is begun when
+# the activity resumes - equivalent, because the prefix wrote nothing.
+def _rp_point(what):
+    a = cur_act()
+    if a is None or not W.rp:
+        return
+    if getattr(a, 'tx_wrote', False):
+        return
+    a.tx_wrote = True
+    if not getattr(a, 'tx_reads', 0) or not getattr(a, 'tx_open', False):
+        return
+    raw = raw_conn()
+    if not raw.in_transaction:
+        return
+    raw.execute('COMMIT')
+    a.obs.append(['rp', what])
+    a.dirty = False
+    yield_point('rp')
+    a.obs.pop()
+    raw_conn().execute('BEGIN')
+
+
+def _install_rp():
+    from sqlalchemy import event
+    eng = db_base.get_engine()
+
+    @event.listens_for(eng, 'before_cursor_execute')
+    def _before(conn, cursor, statement, parameters, context, executemany):
+        a = cur_act()
+        if a is None:
+            return
+        head = statement.lstrip()[:6].upper()
+        if head == 'BEGIN':
+            a.tx_open, a.tx_reads, a.tx_wrote = True, 0, False
+        elif head == 'SELECT':
+            a.tx_reads = getattr(a, 'tx_reads', 0) + 1
+        elif head in ('INSERT', 'UPDATE', 'DELETE'):
+            if W.rp:
+                _rp_point('%s %s' % (statement[:160],
+                                     repr(parameters)[:240]))
+            else:
+                a.tx_wrote = True
+
+    @event.listens_for(eng, 'commit')
+    def _commit(conn):
+        a = cur_act()
+        if a is not None:
+            a.tx_open = False
+
+    @event.listens_for(eng, 'rollback')
+    def _rollback(conn):
+        a = cur_act()
+        if a is not None:
+            a.tx_open = False
+
+    from mistral.db.sqlalchemy import sqlite_lock
+    orig = sqlite_lock.acquire_lock
+
+    def acquire_lock(obj_id, session):
+        # taking a lock counts as the first write: the activity may be
+        # overtaken before it holds the lock, never while it holds it
+        _rp_point('lock %s' % obj_id)
+        return orig(obj_id, session)
+    sqlite_lock.acquire_lock = acquire_lock
 
 
 _RAW = []
@@ -706,6 +781,7 @@ def use_legacy_scheduler(n=1):
 
 
 # ---------------------------------------------------------------- reset
+_install_rp()
 SNAP0 = raw_conn().serialize()
 _overrides = []
 
